@@ -531,6 +531,32 @@ def check_default(eng, run):
     run.floor("C09.dflt entry points with a defaulted standard_compatible parameter", n, 5)
 
 
+def check_ssl_layer_kept(eng, run):
+    """the blocking TLS transport never drops its SSL layer outside close(): `SSLSocket.shutdown()` / `.unwrap()` discard the SSL object,
+    after which `recv()` on the same socket is a *plain* socket read that answers the peer's FIN with b"" - a clean end-of-stream
+    for a stream that was in fact cut.  Only close() (and helpers reachable from close() alone) may call them; the async transport
+    likewise writes end-of-file into its BIOs / calls unwrap only from aclose() and the error arms that re-raise."""
+    ci = eng.db.cls("lowlevel.api_sync.transports.socket.SSLStreamTransport")
+    from sa.norm import private_helper
+    sock_attr = f"__socket"
+    from sa.norm import referenced_only_from
+    from sa.analyses.buffers import through_local
+    n = 0
+    for m in ci.methods.values():
+        if isinstance(m.node, ast.Lambda):
+            continue
+        for c in ast.walk(m.node):  # called or handed on as a bound method (`self._try_ssl_method(self.__socket.unwrap)`), lambdas included
+            recv = through_local(m, c.value) if isinstance(c, ast.Attribute) and isinstance(c.value, ast.Name) else getattr(c, "value", None)  # `ssl_socket = self.__socket`
+            if isinstance(c, ast.Attribute) and c.attr in ("shutdown", "unwrap") and (dotted(recv) or "").endswith(sock_attr):
+                n += 1
+                only_close = referenced_only_from(ci, m.name, {"close"})
+                if not only_close:
+                    run.finding("C09.ragged", m, _stmt_at(m, c.lineno), f"`{ast.unparse(c)[:60]}` outside close(): SSLSocket.{c.attr}() drops the SSL object, so the next recv() on this transport is a plain "
+                                "socket read that reports the peer's FIN as a clean end-of-stream although no close notification was received")
+                run.ob("C09.ragged", f"{ci.name}.{m.name}:{c.attr}:only-from-close", bool(only_close))
+    run.floor("C09.ragged SSL-layer teardown calls of the blocking transport", n, 1)
+
+
 def check_flush_shared(eng, run):
     """closing sends a close notification: unwrap() only *produces* the alert in the outgoing BIO; it reaches the peer through the
     retry loop's flush discipline (before waiting for the peer, after success) under the send lock only - machinery of C08"""
@@ -547,6 +573,7 @@ def run(eng, run):
     run.assumptions += ["the ssl module is present (conditional handler expressions `X if ssl else ()` are evaluated with ssl available)"]
     run.attempt(check_map, eng, run)
     run.attempt(check_ragged, eng, run)
+    run.attempt(check_ssl_layer_kept, eng, run)
     run.attempt(check_notify, eng, run)
     run.attempt(check_ctx, eng, run)
     run.attempt(check_ctx_global, eng, run)
